@@ -24,7 +24,7 @@ RULE = ("A: case = (knob-quantizer configuration incl. use_ste, float32 tensor, 
         "tf.Variable-backed instance). Non-trivial = some element is changed by "
         "quantization (quantized != surrogate) and some factor lies strictly "
         "inside (0,1). B: case = (configuration, tensor, history of "
-        "call/update(float|np.float32|np.float64|tf constant)/build(use_variables)"
+        "call/update(float|np.float32|np.float64|tf constant|tf.Variable)/build(use_variables)"
         "/scheduler.set_quantizers/get_config round trip); non-trivial = the "
         "history contains an update that follows a variable-creating build. "
         "C: case = (list of layer descriptions, scheduler arguments, history of "
@@ -79,6 +79,20 @@ REQUIRED_LABELS = {
 REQUIRED_LABELS["thorough"] = REQUIRED_LABELS["quick"]
 
 OTHER_F = 0.625      # initial factor of instances that are updated later
+
+# The time budget is soft: on a loaded machine every part still runs at least
+# this many generated cases per worker before its time slice may cut it short
+# (so the run is slow rather than vacuous).
+MIN_CASES = {"A": 20, "B": 25, "C": 40}
+
+
+def _out_of_time(ctx, part):
+  return ctx.time_left() <= 0 and \
+      ctx.info.get("_n_" + part, 0) >= MIN_CASES[part]
+
+
+def _count(ctx, part):
+  ctx.info["_n_" + part] = ctx.info.get("_n_" + part, 0) + 1
 
 
 def _finite(a):
@@ -283,13 +297,15 @@ def run_a(ctx):
             "hyp": True}
 
   def orc(case):
-    if ctx.time_left() <= 0:
+    if _out_of_time(ctx, "A"):
       ctx.labels["inconclusive_time"] += 1
       return []
+    _count(ctx, "A")
     return oracle_a(ctx, case)
 
-  n = (1200 if ctx.quick else 24000) // ctx.n + 1
-  core.hyp_run(ctx, case_st(), orc, n, name="c07a")
+  _chunked(ctx, "A", (1200 if ctx.quick else 24000) // ctx.n + 1,
+           25 if ctx.quick else 100,
+           lambda n, nm: core.hyp_run(ctx, case_st(), orc, n, name="c07" + nm))
 
 
 # ===========================================================================
@@ -338,12 +354,16 @@ class QuantSim(object):
       return np.float32(f)
     if kind == "np64":
       return np.float64(f)
+    if kind == "tfvar":
+      return tf.Variable(f, dtype=tf.float32, trainable=False)
     return tf.constant(f, dtype=tf.float32)
 
   def step(self, op):
     fails = []
     name = op["op"]
     sig0 = dict(self.base, op=name)
+    if name == "update":
+      sig0["kind"] = op["kind"]
     try:
       if name == "call":
         pass
@@ -442,7 +462,7 @@ def make_machine_b(ctx, cfgs):
       super().__init__()
       self.sim = None
       self.ops = []
-      self.skip = ctx.time_left() <= 0
+      self.skip = _out_of_time(ctx, "B")
 
     def case(self):
       return {"part": "B", "init": self.sim.init, "ops": list(self.ops)}
@@ -466,7 +486,8 @@ def make_machine_b(ctx, cfgs):
     def call(self):
       self.do({"op": "call"})
 
-    @rule(f=G.f_strategy(), kind=st.sampled_from(["py", "np32", "np64", "tf"]))
+    @rule(f=G.f_strategy(), kind=st.sampled_from(["py", "np32", "np64", "tf", "py", "np32",
+                                 "tf", "tfvar"]))
     def update(self, f, kind):
       self.do({"op": "update", "f": f, "kind": kind})
 
@@ -488,6 +509,7 @@ def make_machine_b(ctx, cfgs):
         return
       if self.sim is None:
         return
+      _count(ctx, "B")
       ctx.tick(self.case(), labels=sorted(self.sim.labels) +
                [_err_bucket("B", self.sim.worst)],
                nontrivial=self.sim.nontrivial)
@@ -784,7 +806,7 @@ def make_machine_c(ctx):
       super().__init__()
       self.sim = None
       self.ops = []
-      self.skip = ctx.time_left() <= 0
+      self.skip = _out_of_time(ctx, "C")
 
     def case(self):
       return {"part": "C", "init": self.sim.init, "ops": list(self.ops)}
@@ -843,6 +865,7 @@ def make_machine_c(ctx):
         return
       if self.sim is None:
         return
+      _count(ctx, "C")
       ctx.tick(self.case(), labels=sorted(self.sim.labels),
                nontrivial=self.sim.nontrivial)
 
@@ -871,8 +894,10 @@ class _Slice(object):
   def __enter__(self):
     import time  # pylint: disable=g-import-not-at-top
     self.total = self.ctx.budget_s
-    self.ctx.budget_s = self.total * self.frac
     self.t = time.time()
+    # never start a part with less than 12% of the budget left for it
+    self.ctx.budget_s = max(self.total * self.frac,
+                            (self.t - self.ctx.t0) + 0.12 * self.total)
 
   def __exit__(self, *a):
     import time  # pylint: disable=g-import-not-at-top
@@ -880,21 +905,44 @@ class _Slice(object):
     self.ctx.info[self.name + "_cpu_s"] = round(time.time() - self.t, 1)
 
 
+def _chunked(ctx, part, total, chunk, fn):
+  """Runs fn(n_examples, name_suffix) in small Hypothesis runs until `total`
+  generated cases of this part are done or its time slice is used up (a
+  Hypothesis run cannot be stopped from inside, small runs can simply not be
+  started).  MIN_CASES is honoured by extending the slice when necessary."""
+  k = 0
+  while ctx.info.get("_n_" + part, 0) < total and not _out_of_time(ctx, part):
+    if ctx.time_left() <= 2.0:
+      ctx.budget_s += 10.0
+    before = ctx.info.get("_n_" + part, 0)
+    fn(max(1, min(chunk, total - before)), "%s%d" % (part.lower(), k))
+    k += 1
+    if ctx.info.get("_n_" + part, 0) == before:
+      break                      # nothing ran (time): do not spin
+  if ctx.info.get("_n_" + part, 0) < total:
+    ctx.labels["inconclusive_time"] += 1
+
+
 def run(ctx):
   import tensorflow as tf  # pylint: disable=g-import-not-at-top
+  quick = ctx.quick
   with _Slice(ctx, 0.35, "A"):
     run_a(ctx)
   tf.keras.backend.clear_session()
   cfgs = G.lattice(ctx.tier)
   with _Slice(ctx, 0.65, "B"):
-    nb = (1600 if ctx.quick else 16000) // ctx.n + 1
-    core.hyp_machine(ctx, make_machine_b(ctx, cfgs), nb,
-                     step_count=12 if ctx.quick else 25, name="c07b")
+    mb = make_machine_b(ctx, cfgs)
+    _chunked(ctx, "B", (1600 if quick else 16000) // ctx.n + 1,
+             25 if quick else 100,
+             lambda n, nm: core.hyp_machine(
+                 ctx, mb, n, step_count=12 if quick else 25, name="c07" + nm))
   tf.keras.backend.clear_session()
   with _Slice(ctx, 1.0, "C"):
-    nc = (2400 if ctx.quick else 24000) // ctx.n + 1
-    core.hyp_machine(ctx, make_machine_c(ctx), nc,
-                     step_count=14 if ctx.quick else 30, name="c07c")
+    mc = make_machine_c(ctx)
+    _chunked(ctx, "C", (2400 if quick else 24000) // ctx.n + 1,
+             25 if quick else 100,
+             lambda n, nm: core.hyp_machine(
+                 ctx, mc, n, step_count=14 if quick else 30, name="c07" + nm))
 
 
 def replay(ctx, case):
